@@ -34,11 +34,11 @@ PATCHES["runtime/select.go"] = [
 PATCHES["runtime/rand.go"] = [
     (
         "func rand() uint64 {\n\t// Note: We avoid acquirem here",
-        "func rand() uint64 {\n\tif verifStateA != 0 && getg().bubble != nil {\n\t\treturn verifNext()\n\t}\n\t// Note: We avoid acquirem here",
+        "func rand() uint64 {\n\tif verifStateA != 0 && getg().bubble != nil {\n\t\treturn verifNextB()\n\t}\n\t// Note: We avoid acquirem here",
     ),
     (
         "func maps_rand() uint64 {\n\treturn rand()\n}",
-        "func maps_rand() uint64 {\n\tif verifStateA != 0 && getg().bubble != nil {\n\t\treturn verifNext()\n\t}\n\treturn rand()\n}",
+        "func maps_rand() uint64 {\n\tif verifStateA != 0 && getg().bubble != nil {\n\t\treturn verifNextB()\n\t}\n\treturn rand()\n}",
     ),
     (
         "// mrandinit initializes the random state of an m.",
@@ -55,22 +55,101 @@ func VerifSeed(s uint64) {
 		return
 	}
 	verifStateA = s | 1
+	verifStateB = (s * 0x9e3779b97f4a7c15) | 1
+	verifGoCount = 0
+	verifTimerCount = 0
+	// The scheduler looks at the global run queue every 61st scheduling tick of
+	// the P. With more than 256 runnable goroutines (the local queue's capacity)
+	// some spill to the global queue, and when they run would depend on how far
+	// the tick counter got in earlier runs of this process.
+	if pp := getg().m.p.ptr(); pp != nil {
+		pp.schedtick = 0
+	}
 }
 
 // VerifInBubble reports whether the calling goroutine is in a synctest bubble.
 func VerifInBubble() bool { return getg().bubble != nil }
 
+var verifPoolsOn bool
+
+// VerifPools switches sync.Pool back on inside bubbles (for single-goroutine
+// checks that target buffer reuse and clear the pools before every run).
+func VerifPools(on bool) { verifPoolsOn = on }
+
+// VerifBypassPools reports whether sync.Pool must not pool for the calling goroutine.
+func VerifBypassPools() bool { return getg().bubble != nil && !verifPoolsOn }
+
 // VerifGoid returns the calling goroutine's id.
 func VerifGoid() uint64 { return getg().goid }
 
-//go:nosplit
+var verifDraws uint64
+
+// VerifDraws returns how many values were drawn from the seeded stream (debugging aid).
+func VerifDraws() uint64 { return verifDraws }
+
+var verifTraceOn bool
+var verifTrace [1 << 18][8]uintptr
+
+// VerifTraceDraws switches recording of the call stack of every draw on or off (debugging aid).
+func VerifTraceDraws(on bool) { verifTraceOn = on }
+
+// VerifDrawStack returns the recorded call stack of draw number i.
+func VerifDrawStack(i uint64) []uintptr { return verifTrace[i%(1<<18)][:] }
+
 func verifNext() uint64 {
+	verifDraws++
+	if verifTraceOn {
+		var pcs [12]uintptr
+		n := callers(1, pcs[:])
+		t := &verifTrace[verifDraws%(1<<18)]
+		*t = [8]uintptr{}
+		if n > 1 {
+			copy(t[:], pcs[1:n])
+		}
+	}
 	verifStateA += 0x9e3779b97f4a7c15
 	z := verifStateA
 	z = (z ^ (z >> 30)) * 0xbf58476d1ce4e5b9
 	z = (z ^ (z >> 27)) * 0x94d049bb133111eb
 	return z ^ (z >> 31)
 }
+
+// verifStateB is a second stream, for map seeds, map iteration offsets and the
+// math/rand top-level functions. Scheduling-relevant choices (select order, order of
+// timers that fire at the same instant) use the first stream only, so that code
+// that creates a few maps more or less (lazy initialisation of process-wide
+// caches, for example protobuf message descriptors) does not shift them.
+//
+// The second stream is per goroutine (g.verifB), split off the creating
+// goroutine's stream, so that extra draws by one goroutine do not shift the map
+// seeds of the others either. verifStateB seeds the bubble's root goroutine.
+var verifStateB uint64
+
+func verifMix(z uint64) uint64 {
+	z = (z ^ (z >> 30)) * 0xbf58476d1ce4e5b9
+	z = (z ^ (z >> 27)) * 0x94d049bb133111eb
+	return z ^ (z >> 31)
+}
+
+func verifNextB() uint64 {
+	gp := getg()
+	if gp.verifB == 0 {
+		gp.verifB = verifStateB
+	}
+	gp.verifB += 0x9e3779b97f4a7c15
+	return verifMix(gp.verifB)
+}
+
+// verifSplit derives the stream of a newly created goroutine from the number of
+// goroutines the run has created so far (the creating goroutine is not used:
+// goroutines of AfterFunc timers are created by whichever goroutine runs the timer).
+func verifSplit(gp *g) uint64 {
+	verifGoCount++
+	return verifMix(verifStateB^(verifGoCount*0x632be59bd9b4e019)) | 1
+}
+
+var verifGoCount uint64
+var verifTimerCount uint64
 
 //go:nosplit
 func verifSelRandn(n uint32) uint32 {
@@ -86,7 +165,13 @@ func verifSelRandn(n uint32) uint32 {
 
 PATCHES["runtime/time.go"] = [
     # go1.26 orders fake timers that fire at the same instant by a per-timer random value
-    ("\t\t\tt.rand = cheaprand()", "\t\t\tif verifStateA != 0 {\n\t\t\t\tt.rand = uint32(verifNext())\n\t\t\t} else {\n\t\t\t\tt.rand = cheaprand()\n\t\t\t}"),
+    # The tie-break value is a function of the run's seed, the timer's creation ordinal in
+    # the run and its firing time. It is not drawn from the stream: whether a timer has to
+    # be (re-)added to the heap when a goroutine blocks on its channel depends on how far
+    # the lazy removal of stopped timers has got, which must not shift later choices.
+    ("\t\t\tt.rand = cheaprand()", "\t\t\tif verifStateA != 0 {\n\t\t\t\tif t.verifID == 0 {\n\t\t\t\t\tverifTimerCount++\n\t\t\t\t\tt.verifID = verifTimerCount\n\t\t\t\t}\n\t\t\t\tt.rand = uint32(verifMix(verifStateB ^ (t.verifID * 0x9e3779b97f4a7c15) ^ uint64(t.when)))\n\t\t\t} else {\n\t\t\t\tt.rand = cheaprand()\n\t\t\t}"),
+    ("\trand    uint32 // randomizes order of timers at same instant; only set when isFake\n",
+     "\trand    uint32 // randomizes order of timers at same instant; only set when isFake\n\tverifID uint64 // verif: creation ordinal within the simulated run\n"),
 ]
 
 PATCHES["runtime/alg.go"] = [
@@ -95,6 +180,8 @@ PATCHES["runtime/alg.go"] = [
 ]
 
 PATCHES["runtime/runtime2.go"] = [
+    ("\tcoroarg *coro // argument during coroutine transfers\n\tbubble  *synctestBubble\n",
+     "\tcoroarg *coro // argument during coroutine transfers\n\tbubble  *synctestBubble\n\tverifB  uint64 // verif: this goroutine's stream for map seeds / math/rand\n"),
     (
         "\twaitReasonSynctestSelect:        true,\n}",
         "\twaitReasonSynctestSelect:        true,\n\twaitReasonSyncMutexLock:         true,\n\twaitReasonSyncRWMutexRLock:      true,\n\twaitReasonSyncRWMutexLock:       true,\n}",
@@ -102,10 +189,49 @@ PATCHES["runtime/runtime2.go"] = [
 ]
 
 PATCHES["runtime/proc.go"] = [
+    # every goroutine of a bubble gets its own stream for map seeds, split off its
+    # parent's stream at creation (see verifNextB)
+    ("\t\tnewg.bubble = callergp.bubble\n",
+     "\t\tnewg.bubble = callergp.bubble\n\t\tnewg.verifB = 0\n\t\tif verifStateA != 0 && callergp.bubble != nil {\n\t\t\tnewg.verifB = verifSplit(callergp)\n\t\t}\n"),
     ("const forcePreemptNS = 10 * 1000 * 1000 // 10ms", "const forcePreemptNS = 3600 * 1000 * 1000 * 1000 // verif: 1h"),
+    # A goroutine of the runtime itself (scavenger, sweeper, finalizer and cleanup
+    # goroutines, real timers) that becomes runnable during a simulated run must not
+    # take the "run next" slot: that would push the bubble goroutine sitting there to the
+    # tail of the run queue and change the order of the simulated goroutines depending on
+    # wall-clock events.
+    ("\trunqput(mp.p.ptr(), gp, next)\n\twakep()\n\treleasem(mp)\n}\n",
+     "\tif verifStateA != 0 && gp.bubble == nil {\n\t\tnext = false\n\t}\n\trunqput(mp.p.ptr(), gp, next)\n\twakep()\n\treleasem(mp)\n}\n"),
+    # sysmon takes the P away from a goroutine that sits in a system call for more than
+    # a tick (20 us .. 10 ms, wall-clock) when other goroutines are runnable, and the
+    # goroutine then comes back through the global queue: which goroutine runs next
+    # would depend on how long a getrandom / write call happened to take.
+    ("\t\t// Drop allpLock so we can take sched.lock.\n\t\tunlock(&allpLock)\n",
+     "\t\tif verifStateA != 0 && !sysretake {\n\t\t\tcontinue // verif: never retake a P from a system call during a simulated run\n\t\t}\n\n\t\t// Drop allpLock so we can take sched.lock.\n\t\tunlock(&allpLock)\n"),
+]
+
+# sync.Mutex decides between normal and starvation mode by how long a waiter has
+# waited in *real* time (1 ms). In a simulated run a waiter is parked for as long as
+# the scheduler and the host need, so which mode a contended mutex is in (and with it
+# who gets the lock next) would depend on the load of the machine. Inside a bubble the
+# mutex sees the bubble's fake clock instead.
+PATCHES["runtime/sema.go"] = [
+    ("func internal_sync_nanotime() int64 {\n\treturn nanotime()\n}",
+     "func internal_sync_nanotime() int64 {\n\tif verifStateA != 0 {\n\t\tif b := getg().bubble; b != nil {\n\t\t\treturn b.now\n\t\t}\n\t}\n\treturn nanotime()\n}"),
 ]
 
 HOOK = "\tif h := VerifFSHook; h != nil {\n\t\tif e := h(%s); e != nil {\n\t\t\treturn %s\n\t\t}\n\t}\n"
+
+# sync.Pool: inside a bubble nothing is pooled. Whether Get finds a pooled object
+# depends on what earlier runs of the same process left behind and on when the
+# collector last ran; a hit skips allocations (maps, whose seeds come from the
+# seeded stream) that a miss performs, so a run would depend on the history of
+# its process and a fresh-process replay could take another path.
+PATCHES["sync/pool.go"] = [
+    ("func (p *Pool) Put(x any) {\n\tif x == nil {\n\t\treturn\n\t}\n",
+     "func (p *Pool) Put(x any) {\n\tif x == nil {\n\t\treturn\n\t}\n\tif runtime.VerifBypassPools() {\n\t\treturn\n\t}\n"),
+    ("func (p *Pool) Get() any {\n",
+     "func (p *Pool) Get() any {\n\tif runtime.VerifBypassPools() {\n\t\tif p.New != nil {\n\t\t\treturn p.New()\n\t\t}\n\t\treturn nil\n\t}\n"),
+]
 
 PATCHES["os/file.go"] = [
     (
